@@ -234,6 +234,27 @@ def check(run, ctx):
         else:
             run.ok(R8, fn_, f"{marker!r} in <text of preceding attribute_item siblings>")
 
+    # the scan that hands those helpers their attribute siblings tolerates every comment kind, between attributes too
+    from .c13 import _comments_skipped_in_another_loop
+    CK = {"comment", "line_comment", "block_comment", "doc_comment"}
+    scans = [g for g in repo.funcs_in("src.analyzers.rust_context.") if g.parent is None and any(isinstance(n, ast.Attribute) and n.attr == "prev_sibling" for n in ast.walk(g.node))]
+    run.require(bool(scans), "rust_context: no preceding-sibling scan found")
+    for g in scans:
+        ks = set()
+        for n in ast.walk(g.node):
+            if isinstance(n, ast.Compare) and isinstance(n.left, ast.Attribute) and n.left.attr == "type":
+                for c_ in n.comparators:
+                    v = repo.fold(g.module, c_)
+                    ks |= {v} if isinstance(v, str) else set(v) if isinstance(v, (tuple, list, set, frozenset)) else set()
+        need = {k for k in ("line_comment", "block_comment") if k in ctx.grammar["rust"].named}
+        split = _comments_skipped_in_another_loop(repo, g, CK)
+        if ks & CK and not need <= ks:
+            run.finding(R8, g.name, f"comment-kinds-missing:{sorted(need - ks)}", f"{g.name} steps over {sorted(ks & CK)} but not over {sorted(need - ks)}: a `/* */` comment between #[test] / #[cfg(test)] and the item ends the scan, the item is no longer test code and allow_in_tests stops applying", g.loc)
+        elif split:
+            run.finding(R8, g.name, "comments-skipped-before-not-between", f"{g.name} skips comments first and collects attributes in a second loop: a comment between two attributes hides the attributes above it (#[cfg(test)] // note #[allow(..)] mod tests)", g.loc)
+        else:
+            run.ok(R8, f"{g.name} scan", f"one loop collects attributes and steps over {sorted(ks & CK)}")
+
     # which marker decides for which item kind: `test` for functions, the narrower `cfg(test)` for modules
     itc = repo.func("src.analyzers.rust_context._is_test_context")
     disp = {}
